@@ -98,3 +98,33 @@ reg("C16",
     "Trusted: stdlib tokenize + lexical projection (kind/atom id/gap, '-'NUMBER merged), leaf<->atom id by ast.literal_eval + type, cell width via the tree's cell_len, python object -> abstract value traversal. Assumptions: finite floats; `<class 'T'>` read as factory T; deque maxlen not compared; dict keys are leaves/tuples of leaves; OneLineIfFits only for pure list/tuple/dict/set/frozenset values without cycles/abbreviation/expand_all; abbreviation clauses judge the reported counts and prefix property, not whether Rich abbreviates. quick: M1 63k states, 14k real calls; thorough: M1 1.4M states, 127k real calls.",
     "TLA+ spec Pretty.tla (evaluator + layout relations + transcription of pretty.py); TLC exhaustive model check of the layout design; TLC-generated values replayed on the real code; TLC record validation of tokenised real outputs with delta-debugged witnesses",
     "DESIGN.md §4 C16")
+
+reg("C04",
+    "TLC exhaustively checks the Markup design: for every token document of <=5 (thorough 6) Open/Close(name)/[/]/char tokens "
+    "the tag-stack machine equals a stack-free statement of the rule (later-opened wins, most-recent-of-that-name, MarkupError exactly "
+    "when nothing to close) and the span design; for every string of <=5 (6) symbols lexing escape(s) gives back s, stand-alone and "
+    "embedded.  Real rich.markup.render(emoji=False)/escape executions are then judged record by record by TLC against the spec: every "
+    "TLC-generated token document of 3 (4) tokens + simulated ones, ALL raw strings of length <=5 (6) over the 12-symbol alphabet "
+    "(render result, MarkupError clause, escape clause), the embedded-escape clause in 6 contexts for all strings <=3 (4), and 6k (60k) "
+    "random nested/overlapping documents with escaped leaves up to 200 chars.  Bounded conformance, not a proof of the Python code.",
+    "Trusted: Style->(fg,bg,bold,link,other) projection; per-character styles read from Text.render segments; the style language "
+    "(Style.normalize / Console.get_style of the tree under test) is taken as given for tag names and styles; emoji=False; where the "
+    "docs are silent on what a tag is ('[' inside a tag, candidate not closed on its line) a disagreement is DRIFT.  10-tag vocabulary.",
+    "TLA+ spec Markup.tla (lexer + tag-stack machine + escape relations); TLC exhaustive model check with per-action coverage + "
+    "TLC-generated documents replayed on rich.markup.render + TLC batch validation of recorded render/escape executions",
+    "DESIGN.md §4 C04")
+
+reg("C13",
+    "TLC judges everything. M1: exhaustive checks that the transcribed designs of set_cell_size/chop_cells (all width strings <= 6/7 x sizes 0..15 x chop widths 2..5), "
+    "of the cell_len memo (capacity 2-3, strings <= 3: cached value and returned value always equal CellLen, incl. eviction) and of the Segment line-shaping helpers "
+    "(<= 2/3 segments) satisfy the acceptance relations, and that the relations reject the classic wrong designs. M4: get_character_cell_size(chr(cp)) is compared by TLC "
+    "with a linear first-match scan of the width table read from the tree under test - quick: every range boundary +-1, shortcut/surrogate edges, 5000 random; thorough: all "
+    "1,114,112 code points. M3: cell_len/set_cell_size/chop_cells for all strings over 8/12 concrete mixed-width characters up to length 4 and random strings <= 80 x sizes 0..100; "
+    "call histories on the real process-wide caches that exceed both 4096-entry capacities, interleave uncached > 64-char strings and re-measure evicted and resident keys in "
+    "different orders; TLC-enumerated (M2) and random histories on a real LRUCache of capacity 1-4 replayed step by step; adjust_line_length / split_and_crop_lines / set_shape / "
+    "split_lines / simplify / get_shape records (exact length, characters+styles unchanged, pad style, newline placement). Bounded testing judged by a formal spec, not a proof about the Python code.",
+    "Trusted: str<->code-point and Style->id (identity, then ==) projections, reading CELL_WIDTHS from the tree under test, VERDICT parsing. Width is DEFINED by the tree's table "
+    "(a changed table is DRIFT, still judged). Where the statement is silent (style of the filler for a half-cut wide char, trailing empty line, set_shape with height < lines, control flags, "
+    "maximal fill of chop/crop) every behaviour is allowed; differences from the transcription there are DRIFT only. Hangs inside Rich are observed through a CPU-time watchdog.",
+    "TLA+ specs Cells.tla / Segments.tla / LruCache.tla; TLC exhaustive model checks + TLC slice evaluation over all code points + TLC-generated cache histories replayed on the real LRUCache + TLC validation of recorded executions",
+    "DESIGN.md §4 C13")
